@@ -1,10 +1,17 @@
 """props.py — per-property configuration of check.py: harness TUs, streams per tier, proof modules."""
 import os
 
+SAN = ["-g", "-fsanitize=address,undefined", "-fno-sanitize-recover=all"]
+
 HARNESS = {
     "h_posit": dict(src="h_posit.cpp"),
     "h_quire": dict(src="h_quire.cpp"),
     "h_pconv": dict(src="h_pconv.cpp"),
+    "h_threads": dict(src="h_threads.cpp", flags=["-pthread"]),
+    "h_threads_tsan": dict(src="h_threads.cpp", flags=["-pthread", "-g", "-fsanitize=thread"]),
+    "h_posit_san": dict(src="h_posit.cpp", flags=SAN + ["-DUV_SAN_SMALL"]),
+    "h_quire_san": dict(src="h_quire.cpp", flags=SAN),
+    "h_pconv_san": dict(src="h_pconv.cpp", flags=SAN),
 }
 
 POSIT_SMALL = [(n, es) for n in range(2, 9) for es in range(0, 6) if es <= n - 2 or (n, es) in ((2, 0),)]
@@ -148,4 +155,46 @@ PROPS = {
         explanation="posit<n1,es1> -> posit<n2,es2> converting constructor and back; identity on representable values; widening then narrowing",
         assumptions=[],
     ),
+    "C20": dict(
+        harness=["h_posit_san", "h_quire_san", "h_pconv_san", "h_threads"],
+        thorough_harness=["h_threads_tsan"],
+        streams=lambda tier, seed, exes: c20_streams(tier, seed, exes),
+        proof_modules=["UVerifProofs.Props.C20"],
+        crash_is_violation=True,
+        judge="clean",
+        level="proof",
+        level_text="index- and shift-safety side conditions of the modelled algorithms are Lean theorems for all configurations; canonical-form "
+                   "(no bit outside the width) is checked by every spec predicate; the compiled code is additionally executed under ASan+UBSan "
+                   "on the same streams (a sanitizer abort is a violation with the announced operands as replay). The data-race clause is NOT "
+                   "decided by this technique (a pure functional model has no shared state): it is only validated by running identical programs "
+                   "on N threads (TSan build in the thorough tier)",
+        level_note="trusted: Lean kernel, hand-written model, the sanitizers' completeness on the executed paths; heap safety of std::vector-backed "
+                   "elastic types and data races are outside what the theorems say",
+        explanation="ASan+UBSan execution of every harness stream + thread-determinism validation + side-condition theorems",
+        assumptions=["sanitizers report every UB/memory error on the executed paths"],
+    ),
 }
+
+
+def c20_streams(tier, seed, exes):
+    jobs = []
+    pe = exes["h_posit_san"]
+    small = [(2,0),(3,0),(3,1),(4,0),(4,2),(5,1),(5,3),(6,2),(6,4),(7,0),(7,5)]
+    eight = [(8,0),(8,2),(8,5)]
+    cfgs = small + (rotate(eight, seed, 1) if tier == "quick" else eight)
+    for (n, es) in cfgs:
+        jobs.append(dict(exe=pe, args=["exh", str(n), str(es), "0", "all"], label=f"ASan+UBSan posit<{n},{es}> exhaustive all ops"))
+        jobs.append(dict(exe=pe, args=["exh", str(n), str(es), "0", "conv"], label=f"ASan+UBSan posit<{n},{es}> conversions"))
+    cnt = 3000 if tier == "quick" else 100000
+    for (n, es) in [(16,1),(32,2),(64,3)]:
+        jobs.append(dict(exe=pe, args=["rnd", str(n), str(es), str(cnt), "all"], label=f"ASan+UBSan posit<{n},{es}> structured"))
+        jobs.append(dict(exe=pe, args=["rnd", str(n), str(es), str(cnt // 10), "conv"], label=f"ASan+UBSan posit<{n},{es}> conversions"))
+    qe = exes["h_quire_san"]
+    for (n, es, c) in QUIRE_CFGS:
+        jobs.append(dict(exe=qe, args=["hist", str(n), str(es), str(c), "150" if tier == "quick" else "4000"], label=f"ASan+UBSan quire<{n},{es},{c}> histories"))
+        jobs.append(dict(exe=qe, args=["part", str(n), str(es), str(c), "300" if tier == "quick" else "8000"], label=f"ASan+UBSan quire<{n},{es},{c}> partitions"))
+    jobs.append(dict(exe=exes["h_pconv_san"], args=["exh", "200"], label="ASan+UBSan posit->posit"))
+    jobs.append(dict(exe=exes["h_threads"], args=["8", "3000"], label="8 threads x identical programs on distinct objects"))
+    if tier == "thorough" and "h_threads_tsan" in exes:
+        jobs.append(dict(exe=exes["h_threads_tsan"], args=["8", "3000"], label="TSan: 8 threads x identical programs on distinct objects"))
+    return jobs
